@@ -84,6 +84,7 @@ type Contract struct {
 	MayPanic   bool
 	NoSafety   bool
 	Uninterp   bool // spec function treated as an uninterpreted function of its arguments
+	AbstractMul bool // multiplication of two non-literals is an uninterpreted function in this function's obligations (sound: weaker)
 	NoOverflow bool // math mode: arithmetic of this function is assumed not to overflow (recorded as an assumption)
 	Lemma      bool
 	Line       int
@@ -94,6 +95,16 @@ type Contract struct {
 	Timeout    int
 	Pure       bool
 	Enums      []enumSpec
+	Ghosts    []*GhostStmt
+	Decreases *Clause
+}
+
+// GhostStmt: a ghost call (usually a lemma application) executed at an anchor of the function.
+type GhostStmt struct {
+	Anchor string // entry | return | after
+	Callee string // for after: name of the called function
+	Ord    int    // for after: k-th call (1-based) in source order
+	Clause *Clause
 }
 
 type enumSpec struct {
@@ -339,6 +350,8 @@ func (p *Program) bind(c *Contract) error {
 			c.NoSafety = true
 		case "nooverflow":
 			c.NoOverflow = true
+		case "abstract_mul":
+			c.AbstractMul = true
 		case "uninterpreted":
 			c.Uninterp = true
 			c.Assumed = "uninterpreted ghost function: " + rc.text
@@ -390,6 +403,58 @@ func (p *Program) bind(c *Contract) error {
 				}
 				c.Modifies = append(c.Modifies, cl)
 			}
+		case "decreases":
+			cl, err := p.bindClauseTyped(c, rc, c.Decl.Body.Lbrace+1, sig, false, "decreases", false)
+			if err != nil {
+				return err
+			}
+			c.Decreases = cl
+		case "ghost":
+			// ghost entry: call | ghost return: call | ghost after Callee#k: call
+			i := strings.Index(rc.text, ":")
+			if i < 0 {
+				return fmt.Errorf("%s:%d: ghost <anchor>: <call>", c.File, rc.line)
+			}
+			anchor := strings.Fields(strings.TrimSpace(rc.text[:i]))
+			callText := strings.TrimSpace(rc.text[i+1:])
+			g := &GhostStmt{}
+			pos := c.Decl.Body.Lbrace + 1
+			switch {
+			case len(anchor) == 1 && (anchor[0] == "entry" || anchor[0] == "return"):
+				g.Anchor = anchor[0]
+				if g.Anchor == "return" {
+					pos = c.Decl.Body.Rbrace
+				}
+			case len(anchor) == 2 && anchor[0] == "after":
+				g.Anchor = "after"
+				parts := strings.SplitN(anchor[1], "#", 2)
+				g.Callee = parts[0]
+				g.Ord = 1
+				if len(parts) == 2 {
+					g.Ord, _ = strconv.Atoi(parts[1])
+				}
+				n := 0
+				ast.Inspect(c.Decl.Body, func(nd ast.Node) bool {
+					if call, ok := nd.(*ast.CallExpr); ok && calleeName(call) == g.Callee {
+						n++
+						if n == g.Ord {
+							pos = call.End()
+						}
+					}
+					return true
+				})
+				if n < g.Ord {
+					return &BindError{fmt.Sprintf("%s:%d: %s has no call %s#%d", c.File, rc.line, c.Key, g.Callee, g.Ord)}
+				}
+			default:
+				return fmt.Errorf("%s:%d: unknown ghost anchor %q", c.File, rc.line, rc.text[:i])
+			}
+			cl, err := p.bindClauseTyped(c, rawClause{"ghost", callText, rc.line}, pos, sig, g.Anchor == "return", fmt.Sprintf("ghost#%d", len(c.Ghosts)+1), false)
+			if err != nil {
+				return err
+			}
+			g.Clause = cl
+			c.Ghosts = append(c.Ghosts, g)
 		case "loop":
 			// loop N invariant E | loop N unroll | loop N decreases E
 			f := strings.Fields(rc.text)
@@ -825,4 +890,15 @@ func (p *Program) contractFilePosIn(pkg *packages.Package, file string) token.Po
 		}
 	}
 	return p.contractFilePos(pkg)
+}
+
+// calleeName: the simple name of the function or method called.
+func calleeName(call *ast.CallExpr) string {
+	switch f := ast.Unparen(call.Fun).(type) {
+	case *ast.Ident:
+		return f.Name
+	case *ast.SelectorExpr:
+		return f.Sel.Name
+	}
+	return ""
 }
